@@ -86,6 +86,12 @@ def one_run(seed):
             elif list(sock._message_queue) != live + [entry]:
                 odd.append(("C16", "accepted, but the queue is not the unexpired old ones followed by the new entry", len(live)))
         sock._enqueue_message = enqueue
+        sub_delay = rng.choice([0.0, 0.0, 0.3, 1.0])
+        if sub_delay:
+            async def slow_subscriber(*, connected):
+                if not connected:
+                    await asyncio.sleep(sub_delay)   # e.g. an API object stopping its heartbeat
+            sock.subscribe_on_connection_changed(slow_subscriber)
         await sock.open_socket()
         ticket = 0
         gates = []
@@ -97,6 +103,24 @@ def one_run(seed):
             if burst > 0:
                 burst -= 1
                 op = 0.0
+            if 0.80 <= op < 0.83:
+                # shutdown in the middle of whatever is going on (connect in flight, back-off, drain), idle, re-open
+                try:
+                    await sock.close()
+                except BaseException as e:  # noqa: BLE001
+                    odd.append(("C15", f"close raised {type(e).__name__}", ""))
+                n_att = net.attempts
+                for idle in (0.0, rng.choice([0.01, 0.5, 3.0])):
+                    await asyncio.sleep(idle)
+                    if sock.is_open or sock.is_connected or net.open_unclosed():
+                        odd.append(("C15", f"{idle} s after close() returned: is_open={sock.is_open} is_connected={sock.is_connected} "
+                                    f"open connections={len(net.open_unclosed())}", ""))
+                        break
+                if net.attempts != n_att:
+                    odd.append(("C15", "a connection was attempted after close() returned", ""))
+                trace.append(("close-reopen", round(loop.time(), 3)))
+                await sock.open_socket()
+                continue
             if faulty and 0.50 <= op < 0.55 and sock._writer is not None:
                 w = sock._writer
                 if w.drain_gate is None:
